@@ -16,6 +16,16 @@ CHECKS = {
             'texts/layouts - only sampling with an independent oracle scales to that domain.',
             'Trusts the model-side expected_tree transcription of the documented tree shape (DESIGN appendix A) '
             'and the renderer\'s token/separator rules; never proves absence.', '4/C02'),
+    'C11': ('exploration',
+            'exhaustive prefix enumeration of generated files + Hypothesis token mutants/noise; oracle = exception '
+            'type, completeness by the renderer span table, exact line of never-viable tokens; atheris in thorough',
+            'Every proper prefix of the generated files is parsed (truncation must be an error unless the cut falls '
+            'between modules, then exactly the first k modules come back); token-level mutants and noise may only '
+            'yield a module list or PySmiLexerError with a 1-based in-range line; inserted never-viable tokens must '
+            'be reported on exactly their line; the same errors must surface as status failed through compile(). '
+            'Thorough adds a coverage-guided atheris campaign with the same oracle.',
+            'Assumes the renderer span table is right about where modules start/end and which line a token is on; '
+            'a 30 s alarm per parse stands for non-termination.', '4/C11'),
 }
 
 NOT_APPLICABLE = {
